@@ -261,6 +261,7 @@ pub mod lens {
     use crate::typenum::operator_aliases::{Add1, Sum};
     pub type U1025 = Add1<U1024>;
     pub type U2049 = Add1<U2048>;
+    pub type U2047 = crate::typenum::operator_aliases::Sub1<U2048>;
     pub type U3000 = Sum<Sum<U1000, U1000>, U1000>;
 }
 
